@@ -321,7 +321,7 @@ fn exh(ctx: &mut Ctx, sub: &str, start: u64, count: u64) {
 fn worker(ctx: &mut Ctx) {
     let cases = match ctx.cfg.tier {
         Tier::Quick => 200_000u64,
-        Tier::Thorough => 3_000_000u64,
+        Tier::Thorough => 1_200_000u64,
     };
     for sub in ["values", "corrections", "flags", "pairs", "runs"] {
         let total = exh_size(sub);
